@@ -129,14 +129,47 @@ def _sel(k, n):
     raise ModelError(f'ndarr: index of type {type(k).__name__}')
 
 
+class DType:
+    """element type token: compared by name, callable as a scalar conversion (np.float32(x)); the value range of the type is not modelled"""
+    _kv_stub = True
+
+    def __init__(self, name):
+        self.name = name
+
+    def __call__(self, x=0):
+        return float(x) if self.name.startswith('float') else int(x)
+
+    def __eq__(self, o):
+        return isinstance(o, DType) and o.name == self.name
+
+    def __ne__(self, o):
+        return not self.__eq__(o)
+
+    def __hash__(self):
+        return hash(self.name)
+
+    def __repr__(self):
+        return f'np.{self.name}'
+
+
+DTYPES = ('float32', 'float64', 'int8', 'int16', 'int32', 'int64', 'uint8', 'uint16', 'uint32', 'uint64', 'bool_')
+
+
+class NumpyNS(NS):
+    """stand-in module: a name it does not provide is outside the model (not an AttributeError of the analysed code)"""
+    def __getattr__(self, name):
+        raise ModelError(f'ndarr: np.{name} is not modelled')
+
+
 class NDArr:
     _kv_array = True
     _kv_methods = ('max', 'min', 'sum', 'any', 'all', 'copy', 'astype', 'tolist', 'flatten', 'ravel', 'fill')
-    _kv_attrs = ('shape', 'ndim', 'size', 'T')
+    _kv_attrs = ('shape', 'ndim', 'size', 'T', 'dtype', 'nbytes')
 
-    def __init__(self, data, view=False):
+    def __init__(self, data, view=False, dt=None):
         self.d = _copy(_raw(data))
         self.view = view
+        self.dt = dt if dt is not None else getattr(data, 'dt', None)       # element type token (None: not stated)
         if not isinstance(self.d, list):
             raise ModelError('ndarr: zero-dimensional array')
 
@@ -155,6 +188,16 @@ class NDArr:
         for k in self.shape:
             n *= k
         return n
+
+    @property
+    def dtype(self):
+        if self.dt is None:
+            raise ModelError('ndarr: dtype of an array whose element type was not stated')
+        return self.dt
+
+    @property
+    def nbytes(self):
+        return self.size
 
     @property
     def T(self):
@@ -206,6 +249,12 @@ class NDArr:
         return sels
 
     def __getitem__(self, k):
+        r = self._getitem(k)
+        if isinstance(r, NDArr):
+            r.dt = self.dt
+        return r
+
+    def _getitem(self, k):
         sels = self._selectors(k)
 
         def get(d, sels):
@@ -263,8 +312,11 @@ class NDArr:
 
     # ---------------------------------------------------------------- arithmetic
     def _bin(self, o, f, swap=False):
+        dt = self.dt if not isinstance(o, NDArr) or o.dt == self.dt else None     # array (op) scalar keeps the element type; mixed arrays: not modelled
+        if f in (operator.eq, operator.ne, operator.lt, operator.le, operator.gt, operator.ge):
+            dt = DType('bool_')
         o = _raw(o)
-        return NDArr(_bc(o, self.d, f) if swap else _bc(self.d, o, f))
+        return NDArr(_bc(o, self.d, f) if swap else _bc(self.d, o, f), dt=dt)
 
     def __add__(self, o): return self._bin(o, _add)
     def __radd__(self, o): return self._bin(o, _add, True)
@@ -319,10 +371,10 @@ class NDArr:
         return all(_flat(self.d))
 
     def copy(self):
-        return NDArr(self.d)
+        return NDArr(self.d, dt=self.dt)
 
-    def astype(self, *_a, **_k):
-        return NDArr(self.d)
+    def astype(self, dtype=None, **_k):
+        return NDArr(self.d, dt=dtype if isinstance(dtype, DType) else None)
 
     def tolist(self):
         return _copy(self.d)
@@ -413,18 +465,33 @@ def numpy_ns(**extra):
     def flatnonzero(a):
         return NDArr([i for i, x in enumerate(_flat(_raw(a))) if x])
 
-    def zeros(shape, **kw): return _full(shape, 0)
-    def ones(shape, **kw): return _full(shape, 1)
+    def _dt(kw, default=None):
+        d = kw.get('dtype', default)
+        if d is not None and not isinstance(d, DType):
+            raise ModelError('ndarr: dtype that is not a numpy type name')
+        return d
+
+    def zeros(shape, **kw):
+        r = _full(shape, 0)
+        r.dt = _dt(kw, DType('float64'))
+        return r
+
+    def ones(shape, **kw):
+        r = _full(shape, 1)
+        r.dt = _dt(kw, DType('float64'))
+        return r
 
     def full(shape, v, **kw):
-        return _full(shape, v)
+        r = _full(shape, v)
+        r.dt = _dt(kw)
+        return r
 
-    def zeros_like(a, **kw): return NDArr(_map(_raw(a), lambda _x: 0))
+    def zeros_like(a, **kw): return NDArr(_map(_raw(a), lambda _x: 0), dt=_dt(kw, getattr(a, 'dt', None)))
 
-    def full_like(a, v, **kw): return NDArr(_map(_raw(a), lambda _x: v))
+    def full_like(a, v, **kw): return NDArr(_map(_raw(a), lambda _x: v), dt=_dt(kw, getattr(a, 'dt', None)))
 
     def array(a, **kw):
-        return NDArr(a)
+        return NDArr(a, dt=_dt(kw, getattr(a, 'dt', None)))
 
     def un(f):
         def g(a):
@@ -437,10 +504,20 @@ def numpy_ns(**extra):
             r = _bc(_raw(a), _raw(b), f)
             return NDArr(r) if isinstance(r, list) else r
         return g
+    def expand_dims(a, axis=0):
+        if axis != 0:
+            raise ModelError('ndarr: np.expand_dims on another axis than 0')
+        return NDArr([_raw(a)], dt=getattr(a, 'dt', None))
+
+    def full_(shape, v, **kw):
+        return _full(shape, v)
     fns = dict(choose=choose, where=where, arange=arange, concatenate=concatenate, flatnonzero=flatnonzero, zeros=zeros, ones=ones, full=full,
-               zeros_like=zeros_like, full_like=full_like, array=array, asarray=array, hstack=concatenate,
+               zeros_like=zeros_like, full_like=full_like, array=array, asarray=array, hstack=concatenate, expand_dims=expand_dims,
                logical_not=un(lambda x: not x), logical_and=bi(lambda x, y: bool(x) and bool(y)), logical_or=bi(lambda x, y: bool(x) or bool(y)),
                logical_xor=bi(lambda x, y: bool(x) != bool(y)), minimum=bi(min), maximum=bi(max),
-               float32=lambda x: float(x), int32=lambda x: int(x), int64=lambda x: int(x), uint8=lambda x: int(x))
+               )
     fns.update(extra)
-    return NS(**{k: stub(v) for k, v in fns.items()})
+    out = NumpyNS(**{k: stub(v) for k, v in fns.items()})
+    for nm in DTYPES:
+        setattr(out, nm, DType(nm))
+    return out
